@@ -1136,3 +1136,97 @@ func spilledFrom(a ssa.Value, p *ssa.Parameter) bool {
 	}
 	return false
 }
+
+// c18IndexedLiteralsDecoded (W14): what enters the HPACK decoder's dynamic table is what the peer put into its own.
+// A "literal header field with incremental indexing" is added to the dynamic table whether or not the field is emitted
+// to the application (emitting is switched off past MAX_HEADER_LIST_SIZE or after a malformed field - the connection
+// carries on). Skipping the decoding of a literal's strings is therefore allowed only for literals that are not indexed.
+// Clause: in Decoder.parseFieldLiteral every condition that decides whether a string literal is decoded - the boolean
+// handed to readString, or a branch condition that guards a call of a decoding helper - depends on it.indexed() (directly,
+// or as one operand of an `||`). A control that looks at emitEnabled alone stores empty names/values in the table: sizes
+// and indices diverge from the peer's, and later lists decode to other fields or fail.
+func c18IndexedLiteralsDecoded(c *Ctx) {
+	var fn *ssa.Function
+	for f := range c.all {
+		if f.Name() == "parseFieldLiteral" && f.Pkg != nil && strings.HasSuffix(f.Pkg.Pkg.Path(), "pkg/module/http2/hpack") {
+			fn = f
+		}
+	}
+	if fn == nil {
+		c.Unresolved("C18.W14", "hpack Decoder.parseFieldLiteral")
+		return
+	}
+	var dependsOnIndexed func(v ssa.Value, d int) bool
+	dependsOnIndexed = func(v ssa.Value, d int) bool {
+		if d > 5 {
+			return false
+		}
+		switch x := v.(type) {
+		case *ssa.Call:
+			return methodName(x.Common()) == "indexed"
+		case *ssa.Phi:
+			for _, e := range x.Edges {
+				if dependsOnIndexed(e, d+1) {
+					return true
+				}
+			}
+		case *ssa.BinOp:
+			return dependsOnIndexed(x.X, d+1) || dependsOnIndexed(x.Y, d+1)
+		case *ssa.UnOp:
+			return dependsOnIndexed(x.X, d+1)
+		}
+		return false
+	}
+	isEmit := func(v ssa.Value) bool {
+		_, f, _, ok := loadedField(v)
+		return ok && f == "emitEnabled"
+	}
+	n, ok := 0, true
+	var at token.Pos = fn.Pos()
+	forEachInstr(fn, false, func(_ *ssa.Function, in ssa.Instruction) {
+		call, isCall := in.(*ssa.Call)
+		if !isCall {
+			return
+		}
+		name := methodName(call.Common())
+		switch {
+		case name == "readString":
+			// a boolean "want the string" argument
+			for _, a := range call.Common().Args {
+				if b, isB := a.Type().Underlying().(*types.Basic); isB && b.Kind() == types.Bool {
+					if k, isK := constBool(a); isK && k {
+						continue
+					}
+					n++
+					if !dependsOnIndexed(a, 0) {
+						ok, at = false, call.Pos()
+					}
+				}
+			}
+		case name == "decodeString" || name == "huffmanDecode" || name == "HuffmanDecodeToString":
+			// branch conditions over emitEnabled that guard the decoding
+			for _, g := range guardsAt(call.Block()) {
+				touchesEmit := isEmit(g.Cond)
+				if phi, isPhi := g.Cond.(*ssa.Phi); isPhi {
+					for _, pred := range phi.Block().Preds {
+						for _, gg := range guardsAt(pred) {
+							if isEmit(gg.Cond) {
+								touchesEmit = true
+							}
+						}
+					}
+				}
+				if !touchesEmit {
+					continue
+				}
+				n++
+				// `if emitEnabled || it.indexed()` compiles to two branches: the decode block is then NOT dominated by the
+				// emitEnabled edge alone; a dominating emitEnabled-true guard means emitEnabled alone decides
+				if isEmit(g.Cond) && g.True {
+					ok, at = false, call.Pos()
+				}
+			}
+		}
+	})
+	c.Check("C18.W14", funcKey(fn)+":indexed-literals-are-decoded", at, ok, fmt.Sprintf("%d decode control(s), each depending on it.indexed()", n), "the strings of a literal header field are decoded only when emitting is enabled, although an indexed literal enters the dynamic table regardless: after an over-long or malformed header list MOSN's table holds empty entries where the peer's holds the real ones - sizes and indices diverge and later header lists decode to other fields or fail")
+}
